@@ -15,9 +15,11 @@ def fill(claim, NA):
 
 	SIMNOTE = ("Trusted: Lean kernel + propext/Classical.choice/Quot.sound; harness (generator, canonicaliser, comparator); CPython/NumPy. "
 			   "Modelled not verified: sim.py/policy.py/node_state_vars.py for single-product networks (Model/Sim.lean, edge-record state), tied by exact "
-			   "field-by-field equality of whole trajectories on generated networks in the exact-arithmetic regime. Theorems are kernel / single-edge / "
-			   "single-node level for arbitrary inputs; the lift to whole networks by induction over visiting sequences is carried by the "
-			   "correspondence + the executable identities evaluated on every Python trace (stated in DESIGN.md as the open proof target). "
+			   "field-by-field equality of whole trajectories on generated networks in the exact-arithmetic regime. Kernel / single-edge theorems hold for "
+			   "arbitrary inputs; Props/Net.lean and Props/NetBO.lean lift them to WHOLE NETWORKS (any number of nodes, any history, every reachable state) by "
+			   "projecting one period of the model onto an edge / a node (step_edge_internal) and induction over the history, under executable hypotheses "
+			   "(netWFb, initOKb, VisitOK, non-negative demands) that the driver evaluates on every generated network and the evidence counts. "
+			   "Network-level conservation totals (C01) and arrival exactness remain at edge level + correspondence. "
 			   "Multi-product BOM shares, cost functions, order_quantity_override and BEBS are outside the model.")
 	claim('C01',
 		  "Theorems (Props/C01.lean): every kernel that moves units conserves them for all inputs: receipt (recvShip_conserves), production bound "
@@ -29,12 +31,18 @@ def fill(claim, NA):
 	claim('C02',
 		  "Theorems (Props/C02.lean): shipOne_accounting(_ext), shipOne_nonneg (no negative counts, never ships more than on-hand + held), "
 		  "shipAll_spec / bo_matches_il_kernel: for every list of successors and every pattern of shipment pauses, total backorders after the loop = "
-		  "negative part of the new inventory level given the same before; shipAll_on_hand; fill_rate_def, fill_rate_unit ([0,1]). Tie: exact "
+		  "negative part of the new inventory level given the same before; shipAll_on_hand; fill_rate_def, fill_rate_unit ([0,1]). NETWORK LEVEL (Props/NetBO.lean): bo_matches_il_network - for every well-formed network of any size and "
+		  "topology (no condition on the visiting order), every history of non-negative demands and arbitrary disruption flags, in every state the simulator reports "
+		  "and at every node, the backorders owed to its customers sum to exactly the negative part of its inventory level (induction over the history; inv2_nodeShip: "
+		  "every node operation preserves it). Tie: exact "
 		  "trajectory correspondence + predicates (BO = IL^-, non-negativity of every count, ship bound, DMFS<=demand, fill-rate formula) on every Python trace.", SIMNOTE)
 	claim('C03',
 		  "Theorems (Props/C03.lean): on_order_exact_period (ledger on-order − (orders travelling + supplier backorders + held + in transit) is invariant "
 		  "over a full period of an internal edge for any order, on-hand and SP/TP/RP flags), on_order_exact_ext, orders_arrive (an order written at slot "
-		  "OLT is read from slot 0 after exactly OLT shifts), shiftOrders_iter, shiftPipe_get, tp_freezes, rp_releases. Tie: exact trajectory "
+		  "OLT is read from slot 0 after exactly OLT shifts), shiftOrders_iter, shiftPipe_get, tp_freezes, rp_releases. NETWORK LEVEL (Props/Net.lean): step_edge_internal (one period of the "
+		  "whole model acts on every internal edge record exactly as edgePeriod for some non-negative order and on-hand), ledger_step, on_order_exact_network / "
+		  "on_order_exact_checked: in EVERY state the simulator reports, on every internal edge of every well-formed network, on-order = orders travelling + supplier "
+		  "backorders + held + in transit, for any number of nodes and periods. Tie: exact trajectory "
 		  "correspondence with SLT 0-3 × OLT 0-2 × disruption type cells + on-order / order-arrival / shipment-arrival predicates on every Python trace.", SIMNOTE)
 	claim('C04',
 		  "Theorems (Props/C04.lean): bs_rule, ebs_rule, sS_rule, rQ_rule, fq_rule, capped_rule (None and 0 = no capacity), placeOrders_follows_policy "
